@@ -85,23 +85,24 @@ def run(ck):
     pylib = ["-L" + libdir, "-Wl,-rpath," + libdir, "-lpython" + sysconfig.get_config_var("VERSION"), "-ldl", "-lm"]
     ck.rule = ("generated libraries (1-3 classes in an inheritance chain; methods over every integer width, bool, char kinds, float/double, enums with trailing "
                "defaults; static/const/virtual methods overridden down the chain; by-value / reference / const-reference / pointer class parameters; C strings "
-               "and std::string under -string; published data members; free functions) x back-ends {-c, -python} x {-string}: every generated wrapper is "
+               "and std::string under -string; published data members; operators + == += () [] and a typecast operator; a nested class; a typedef'd template "
+               "instantiation and a namespace class as results and arguments; free functions) x back-ends {-c, -python} x {-string} x {-promiscuous}: every generated wrapper is "
                "called next to the direct C++ call on twin objects with boundary and random argument tuples, on objects of the class and of every derived "
                "class, twice in a row; return values, object state, argument objects afterwards and the trace of the instrumented bodies must agree; "
                "distinct = distinct (library, wrapper, argument tuple)")
     n = 3 if quick else 60
     try:
         for li in range(n):
-            for backend in ("c", "python"):
-                for string_mode in (False, True):
+            for backend, string_mode, promiscuous in (("c", False, False), ("c", True, False), ("c", False, True), ("python", False, False), ("python", True, False)):
+                if True:
                     lib = libgen.gen_library(rng, string_mode=string_mode)
-                    d = wd / ("lib%d_%s_%d" % (li, backend, string_mode))
+                    d = wd / ("lib%d_%s_%d_%d" % (li, backend, string_mode, promiscuous))
                     d.mkdir()
                     (d / "lib.h").write_text(lib["header"])
                     (d / "lib.cxx").write_text(lib["impl"])
                     code_name = "o.cxx" if backend == "c" else "p.cxx"
                     cmd = [str(bdir / "bin" / "interrogate"), "-D__cplusplus", "-oc", code_name, "-od", "o.in", "-module", "m", "-library", "l", "-" + backend, "-fnames",
-                           "-S" + str(iglib.REPO / "parser-inc")] + (["-string"] if string_mode else []) + ["lib.h"]
+                           "-S" + str(iglib.REPO / "parser-inc")] + (["-string"] if string_mode else []) + (["-promiscuous"] if promiscuous else []) + ["lib.h"]
                     rc, so, se = iglib.sh(cmd, cwd=str(d), timeout=120)
                     files = {"lib.h": lib["header"], "lib.cxx": lib["impl"], "cmd.txt": " ".join(cmd) + "\n"}
                     ck.search_case("library-wrapped")
@@ -112,7 +113,7 @@ def run(ck):
                     if backend == "c":
                         ws = libgen.parse_wrappers(code)
                         model_tie(ck, lib, ws)
-                        drv = libgen.gen_driver(lib, ws, rng, string_mode=string_mode)
+                        drv = libgen.gen_driver(lib, ws, rng, string_mode=string_mode, promiscuous=promiscuous)
                         extra_inc, extra_ld = [], []
                     else:
                         ws = libgen.parse_py_wrappers(code)
